@@ -79,6 +79,7 @@ def _case(draw, tier):
         topo[j]["wait_for"] = ["sig_v"]
     depth = draw(st.sampled_from([0, 1, 1, 2, 2, 3]))
     renamed = False
+    same_name = False
     ren_all: set = set()  # outputs that a sibling wrapper exposes under another name (gates below do not take those)
     siblings = prob(draw, 0.2)
     if siblings:
@@ -121,6 +122,19 @@ def _case(draw, tier):
         if hidden or inactive:
             depth = 0
             nodes = [dict(n) for n in topo]
+        elif depth >= 2 and prob(draw, 0.25):
+            # a container that carries the same name as the container around it (`sub0/sub0`): names are scoped per graph
+            def _same_name(ns, parent):
+                for x in ns:
+                    if x["k"] == "graph":
+                        if parent is not None and x["name"] != parent:
+                            x["name"] = parent
+                            x["graph"]["name"] = parent
+                            return True
+                        if _same_name(x["graph"]["nodes"], x["name"]):
+                            return True
+                return False
+            same_name = _same_name(nodes, None)
     else:
         nodes = [dict(n) for n in topo]
     # a gate INSIDE the (outermost) nested graph, routing between two of its own function nodes
@@ -184,7 +198,7 @@ def _case(draw, tier):
             depth = 1
     else:
         mutex = None
-    return {"topo": topo, "nodes": draw(gen.permuted(nodes + gates + extra)), "depth": depth, "thin": thin, "renamed": renamed, "mutex": mutex, "siblings": siblings, "trap": trap}
+    return {"topo": topo, "nodes": draw(gen.permuted(nodes + gates + extra)), "depth": depth, "thin": thin, "renamed": renamed, "mutex": mutex, "siblings": siblings, "trap": trap, "same_name": same_name}
 
 
 def strategy(tier):
@@ -793,6 +807,8 @@ def check_case(case, ev):
     value_alias = _aliases(nodes)
     if case["renamed"]:
         labels.add("renamed_boundaries")
+    if case.get("same_name"):
+        labels.add("container_named_like_the_container_around_it")
     if case.get("siblings"):
         labels.add("sibling_containers")
         if any(n.get("renames") for n in nodes if n["k"] == "graph"):
